@@ -32,9 +32,15 @@ class AbstractConstraint(object):
             self._testValue(value, idx)
 
         except error.ValueConstraintError:
-            raise error.ValueConstraintError(
-                '%s failed at: %r' % (self, sys.exc_info()[1])
-            )
+            try:
+                failure = '%s failed at: %r' % (self, sys.exc_info()[1])
+
+            except ValueError:
+                # an integer too long to be shown in decimal digits
+                # (sys.set_int_max_str_digits)
+                failure = '%s failed' % (self,)
+
+            raise error.ValueConstraintError(failure)
 
     def __repr__(self):
         representation = '%s object' % (self.__class__.__name__)
